@@ -605,6 +605,47 @@ def siblings_and_multi_layer(ck, n_cases):
                 ck.fail(f"fmt {fmt}: obj[{[x[1] for x in names]}] = {mat} (one column per name, {target}): the fields read {got} (or other bits changed)", inp)
 
 
+def growth_layer(ck, n_cases):
+    """assigning MORE values than the record has points grows the record: the new points hold the assigned values in that field and zeros everywhere
+    else (every sibling sub-field, every other dimension), the old points keep everything but the assigned field"""
+    import laspy
+    for ci in range(n_cases):
+        fmt = [0, 6, 3, 7, 1, 8][ci % 6]
+        cname, name, mask = ck.rng.choice(subfields(fmt))
+        mx = mask >> lsb_of(mask)
+        n0 = [1, 3, 2][ci % 3]
+        rec = new_record(fmt, n0, ck.rng)
+        rec.array[cname] = 0xFF                       # the old points have every sibling bit set: a copied tail would show
+        m = n0 + ck.rng.choice([1, 2, 4])
+        vals = [ck.rng.randrange(0, mx + 1) for _ in range(m)]
+        before = rec.array.tobytes()
+        size, off = rec.array.dtype.itemsize, rec.array.dtype.fields[cname][1]
+        how = ["record_setitem", "lasdata_attr"][ci % 2]
+        inp = {"kind": "growth", "fmt": fmt, "field": name, "n0": n0, "assigned": vals, "how": how, "before": before.hex()[:300]}
+        ck.case(("growth", fmt, name, n0, tuple(vals), how, before), nontrivial=True)
+        ck.count("assignment_grows_the_record")
+        try:
+            if how == "record_setitem":
+                rec[name] = np.array(vals, dtype="u1")
+                arr = rec.array
+            else:
+                hdr = laspy.LasHeader(point_format=fmt, version="1.4" if fmt >= 6 else "1.2")
+                las = laspy.LasData(hdr)
+                las.points = laspy.ScaleAwarePointRecord(rec.array, hdr.point_format, hdr.scales, hdr.offsets)
+                setattr(las, name, np.array(vals, dtype="u1"))
+                arr = las.points.array
+        except Exception as e:
+            ck.fail(f"fmt {fmt}: {name} = {m} values on a record of {n0} points ({how}) raised {type(e).__name__}: {e}", inp)
+            continue
+        exp = expected_image(before + bytes((m - n0) * size), size, off, mask, list(range(m)), vals)
+        if len(arr) != m or arr.tobytes() != exp:
+            tail = arr.tobytes()[n0 * size:]
+            nz = sum(1 for b in tail if b)
+            ck.fail(f"fmt {fmt}: {name} = {m} values on a record of {n0} points ({how}): the record has {len(arr)} points; the {m - n0} new points hold {nz} non-zero bytes "
+                    f"besides what was assigned (expected zeros everywhere but in {name})" if len(arr) == m else
+                    f"fmt {fmt}: {name} = {m} values on a record of {n0} points ({how}): the record has {len(arr)} points", inp)
+
+
 def run(ck):
     ck.rule = ("single-byte layer (exhaustive, both tiers): every point format x every sub-field x all 256 prior bytes x values "
                "-3..max+3 and large magnitudes, through rec[name][:] = v on a real PackedPointRecord with random other bytes; "
@@ -618,6 +659,7 @@ def run(ck):
     array_layer(ck, 300 if ck.tier == "quick" else 6000)
     alias_and_size_layer(ck, 40 if ck.tier == "quick" else 600)
     siblings_and_multi_layer(ck, 48 if ck.tier == "quick" else 1200)
+    growth_layer(ck, 18 if ck.tier == "quick" else 400)
     ck.failures.sort(key=lambda f: (f["input"]["kind"] != "single", abs(f["input"].get("value", 0)) if isinstance(f["input"].get("value"), int) else 0))
     if ck.tier == "thorough":
         ck.leanchecker(["LasModel.Props.C09"])
